@@ -6,13 +6,13 @@ PROPS = {
         rule="join trees: every shape with up to 6 (quick) / 8 (thorough) nodes plus random trees of depth <= 5, each with every break position k = -1..#leaves; built with the real errors.Join and iterated with cfgerrors.All under recover(); non-trivial = the tree has at least one join; distinct = hash of (tree, k, observed sequence)",
         assumptions=["errors.Join keeps order and drops nil errors", "range-over-func desugaring: the loop body's false result is what the iterator's yield returns"],
     ),
-    "C14": dict(claimed=False,
-        theorems=[],
+    "C14": dict(
+        theorems=["C14_check_spec", "C14_check_spec_new_set", "C14_sset_inv_empty", "C14_sset_inv_add", "C14_sset_inv_fold", "C14_sound", "C14_sound_full", "C14_complete_for_browsers"],
         rule="allowed-name sets of size 1-6 over a universe with prefix/extension-related names x 1-4 field lines: sorted sublists (valid by construction) and perturbations (repeats, shuffles, foreign names incl. prefixes/extensions/case variants, junk bytes, 0-3 OWS bytes per side, 0-20 empty elements, empty lines), plus boundary families (16/17 empties within and across lines, whitespace-only elements of 1-4 bytes, elements at the window edge +-3); non-trivial = approved or containing name bytes",
         assumptions=[],
     ),
-    "C01": dict(claimed=False,
-        theorems=[],
+    "C01": dict(sample=dict(quick=12, thorough=40),
+        theorems=["C01_tree", "C01_order_and_multiplicity", "C01_wf", "C01_insert_step"],
         rule="pattern lists of length 1-5 over hosts sharing byte suffixes that are not label boundaries (a.com/ba.com/xa.com/example.com/xample.com...), IPv4/IPv6 literals, trailing dots, 253-byte hosts, several schemes and ports, '*.' and ':*' forms, duplicates and mutually subsuming pairs; every permutation of lists up to length 3 (quick) / 5 (thorough); per list all mechanically derived near-miss origins of every pattern (left extension without dot, truncations, deeper/shallower subdomain, scheme prefix/suffix, other/absent/default/65535 port, brackets, upper case); non-trivial = at least one pattern was accepted and inserted",
         assumptions=[],
     ),
@@ -21,4 +21,11 @@ PROPS = {
     "C16": dict(claimed=False, theorems=[], rule="", assumptions=[]),
     "C04": dict(claimed=False, theorems=[], rule="", assumptions=[]),
     "C05": dict(claimed=False, theorems=[], rule="", assumptions=[]),
+    "C10": dict(claimed=False, theorems=[], rule="", assumptions=[]),
+    "C02": dict(claimed=False, theorems=[], rule="", assumptions=[]),
+    "C08": dict(claimed=False, theorems=[], rule="", assumptions=[]),
+    "C09": dict(claimed=False, theorems=[], rule="", assumptions=[]),
+    "C06": dict(claimed=False, theorems=[], rule="", assumptions=[]),
+    "C13": dict(claimed=False, theorems=[], rule="", assumptions=[]),
+    "C15": dict(claimed=False, theorems=[], rule="", assumptions=[]),
 }
